@@ -133,6 +133,13 @@ func TestVFC04EffectiveSettings(t *testing.T) {
 					q.Addr = netip.AddrPortFrom(vfC04ClientAddr[owner.Kind], 4000)
 				} else {
 					q.Addr = netip.AddrPortFrom(vfC04ClientAddr[owner.Kind], 4000)
+					if rapid.IntRange(0, 3).Draw(t, label+"_mapped") == 0 {
+						// DoH behind a trusted dual-stack reverse proxy: the
+						// address of the IPv4 host arrives in IPv4-mapped form
+						q.Proto = proxy.ProtoHTTPS
+						q.Addr = netip.AddrPortFrom(netip.AddrFrom16(q.Addr.Addr().As16()), 4000)
+						vfC04E.Class("effective:from_mapped_address:" + owner.Kind)
+					}
 				}
 			}
 
